@@ -886,13 +886,22 @@ Section Judge.
     - apply kernel_agrees_2d. exact C.
   Qed.
   (* the whole extracted judge: an `ok` line means the decoded case satisfies C03_spec *)
+  Lemma crash_verdict_not_ok x tag : crash_verdict x <> v_ok tag.
+  Proof.
+    unfold crash_verdict.
+    repeat match goal with
+           | |- context [match ?t with _ => _ end] => destruct t
+           end; discriminate.
+  Qed.
+
   Theorem judge_index_sound x tag : judge_index x = v_ok tag ->
     exists k m q pre sts def rd fin,
       parse_case x = Some (k, m, q, pre, sts) /\ wf_mat m /\ 1 <= pre /\
       nth_error sts 0 = Some def /\ nth_error sts pre = Some rd /\ nth_error sts (pre + 1) = Some fin /\
       C03_spec k m q def rd fin.
   Proof.
-    unfold judge_index. destruct (parse_case x) as [[[[[k m] q] pre] sts]|]; [|discriminate].
+    unfold judge_index. destruct (parse_case x) as [[[[[k m] q] pre] sts]|];
+      [|intros H; exfalso; exact (crash_verdict_not_ok _ _ H)].
     destruct (andb (wf_matb m) (andb (Nat.leb 1 pre) (Nat.eqb (length sts) (pre + 2)))) eqn:E; [|discriminate].
     apply andb_prop in E as [W E]. apply andb_prop in E as [P _].
     destruct (nth_error sts 0) as [def|] eqn:N0; [|discriminate].
